@@ -57,7 +57,7 @@
 From Coq Require Import List NArith Bool.
 From ApiFu Require Import Base.Sexp Vld.Ast Vld.Inspect Vld.InspectProofs Vld.TypeInfoModel Vld.TypeInfoPure Vld.ValidatorModel Vld.ValidSpec
      Vld.Hyps Vld.ProofsCommon Vld.ProofsDirectives Vld.ProofsArguments Vld.ProofsFragDecl Vld.ProofsValues
-     Vld.ProofsCycles Vld.ProofsVarsOrder Vld.ProofsOrder Vld.ProofsOperations Vld.ProofsTotal Vld.Enumerate Vld.ProofsFields Vld.ProofsMemo Vld.ValidatorProofs Vld.ProofsSpreads Vld.ProofsSecondary Vld.ProofsSecondaryAll Vld.ProofsSpreadsSpec Vld.ProofsFieldsConverse Vld.ProofsVarsConverse Vld.ProofsComplete Vld.ProofsCollect Vld.ProofsMergeSound Vld.ProofsPossibleFields Vld.ProofsSpecCollect Vld.ProofsSubscription Vld.ProofsSpecReach Vld.ProofsVarsSpec Vld.ProofsDepth Vld.ProofsDepthRule Vld.MemoTransfer Vld.ProofsMemoConverse Vld.MemoEquiv Vld.ProofsTypeInfoValues Vld.Witness.
+     Vld.ProofsCycles Vld.ProofsVarsOrder Vld.ProofsOrder Vld.ProofsOperations Vld.ProofsTotal Vld.Enumerate Vld.ProofsFields Vld.ProofsMemo Vld.ValidatorProofs Vld.ProofsSpreads Vld.ProofsSecondary Vld.ProofsSecondaryAll Vld.ProofsSpreadsSpec Vld.ProofsFieldsConverse Vld.ProofsVarsConverse Vld.ProofsComplete Vld.ProofsCollect Vld.ProofsMergeSound Vld.ProofsMergeLocal Vld.ProofsPossibleFields Vld.ProofsSpecCollect Vld.ProofsSubscription Vld.ProofsSpecReach Vld.ProofsVarsSpec Vld.ProofsDepth Vld.ProofsDepthRule Vld.MemoTransfer Vld.ProofsMemoConverse Vld.MemoEquiv Vld.ProofsTypeInfoValues Vld.Witness.
 Import ListNotations.
 
 (** ** determinism: acceptance is a function of schema, features and document alone *)
@@ -473,6 +473,23 @@ Theorem C04_shape_ok_unfold : forall S A X Y, ShapeOK S A X Y ->
                          forall k l, In (k, l) m2 -> ForallOrdPairs (fun x y => ShapeOK S A (fst3 x) (fst3 y)) l).
 Proof. exact shape_ok_unfold. Qed.
 
+(** ** the local checks of the overlapping-fields pass are the Spec's (towards 5.3.2 in the Spec's encoding)
+    valuesAreIdentical is [same_value]; the argument comparison (lengths, then for every argument of B
+    the LAST argument of that name of A) is [same_args] when argument names are unique on both fields
+    (5.4.2); the unwrapping loop of validateSameResponseShape is [strip_shape] on types without a
+    non-null directly inside a non-null ([wf_sty]).  What remains open of 5.3.2 is that the two
+    traversals pair the same fields (the Spec pairs all fields of [collected] with equal response
+    names, the validator the fields filed under one key, in its own order). *)
+Theorem C04_values_identical_spec : forall v w, values_identical v w = same_value v w.
+Proof. exact values_identical_spec. Qed.
+Theorem C04_args_check_same_args : forall X Y,
+  NoDup (map a_name (sel_args X)) -> NoDup (map a_name (sel_args Y)) ->
+  (args_check repaired X Y = MOk <-> same_args (sel_args X) (sel_args Y) = true).
+Proof. exact args_check_same_args. Qed.
+Theorem C04_shape_loop_strip : forall tA tB a b,
+  wf_sty tA = true -> wf_sty tB = true -> (shape_loop tA tB = inl (a, b) <-> strip_shape tA tB = Some (a, b)).
+Proof. exact shape_loop_strip. Qed.
+
 (** ** conjunct (f) of C01's doc_ok: defined on the parent type => defined on every possible object type
     [possible S F p] (the Spec's GetPossibleTypes): [p] itself for an object type, the visible object
     types that declare the interface, the members of the union.  [schema_ifaces_ok] (decidable,
@@ -753,6 +770,9 @@ Print Assumptions C04_accepted_merge_sound.
 Print Assumptions C04_accepted_merge_sound_plain.
 Print Assumptions C04_merge_ok_unfold.
 Print Assumptions C04_shape_ok_unfold.
+Print Assumptions C04_values_identical_spec.
+Print Assumptions C04_args_check_same_args.
+Print Assumptions C04_shape_loop_strip.
 Print Assumptions C04_defined_on_possible.
 Print Assumptions C04_fields_defined_on_possible.
 Print Assumptions C04_spreads_silent_acyclic_chains.
